@@ -619,14 +619,24 @@ func (c *Ctx) ruleG2() {
 		}
 		// the cell(s) the channel lives in (captured variable) → closures reading it
 		host := topLevel(f)
+		// candidate consumers: function literals started with go, and methods / functions
+		// started with go from the host (or one of its literals)
+		var cands []*ssa.Function
 		for _, g := range withClosures(host) {
-			if g == host {
-				continue
+			if g != host {
+				if spawn, _ := goSpawnOf(g); spawn != nil {
+					cands = append(cands, g)
+				}
 			}
-			spawn, _ := goSpawnOf(g)
-			if spawn == nil {
-				continue
-			}
+			eachInstr(g, func(in ssa.Instruction) {
+				if gi, ok := in.(*ssa.Go); ok {
+					if h := gi.Call.StaticCallee(); h != nil && h.Blocks != nil && h.Pkg != nil && inRepo(h.Pkg.Pkg) && h.Parent() == nil {
+						cands = append(cands, h)
+					}
+				}
+			})
+		}
+		for _, g := range cands {
 			// does g receive from a progress channel?
 			var recvCh ssa.Value
 			var sel *ssa.Select
@@ -709,7 +719,8 @@ func isProgressChan(v ssa.Value) bool {
 	if !ok {
 		return false
 	}
-	return strings.HasSuffix(typeStr(t.Elem()), "iface.IPFSLogEntry") && (strings.Contains(s, "progress") || strings.Contains(s, "free:") || strings.Contains(s, "Progress"))
+	_ = s
+	return strings.HasSuffix(typeStr(t.Elem()), "iface.IPFSLogEntry")
 }
 
 func isDoneChan(v ssa.Value) bool {
